@@ -592,7 +592,7 @@ pub fn run(run: &'static Run) {
     run.assume("regular expressions are restricted to constructs that mean the same in POSIX basic (git) and Rust regex syntax: literals, '.', '^', ' '");
     run.assume("`A...B`: only the two tips are compared (git additionally prints the merge bases, which the spec itself does not name)");
     run.assume("fixtures: main = 6 commits incl. a merge, lightweight/annotated/nested/tree/blob tags, branch+tag of the same name, hex-looking branch names, remote tracking + upstream config, reflogs with checkouts, a blob and a commit crafted to share 4-hex prefixes with commits; packed = same with pack + packed-refs; detached = detached HEAD without reflogs; empty = unborn HEAD");
-    run.budget_secs(std::env::var("VERIF_BUDGET").ok().and_then(|s| s.parse().ok()).unwrap_or(run.pick(35.0, 570.0)));
+    run.budget_secs(std::env::var("VERIF_BUDGET").ok().and_then(|s| s.parse().ok()).unwrap_or(run.pick(120.0, 1500.0)));
 
     let all: Vec<&str> = SUFFIX_CORE.iter().chain(SUFFIX_MORE).copied().collect();
     let all = &all;
